@@ -164,22 +164,31 @@ async fn foreign_owned_input_is_rejected() {
     let mut t = TestManager::default();
     t.initialize(10, 1_000_000_000).await;
     let bc = t.blockchain_lock.read().await;
-    // a real unspent output of the node's wallet (the victim)
-    let victim_key = bc.utxoset.iter().find(|(k, v)| **v && Slip::parse_slip_from_utxokey(k).map(|s| s.amount > 0 && s.slip_type == SlipType::Normal).unwrap_or(false)).map(|(k, _)| *k).expect("an unspent output");
-    let victim_slip = Slip::parse_slip_from_utxokey(&victim_key).unwrap();
     let (attacker_pk, attacker_sk) = generate_keys();
-    assert!(victim_slip.public_key != attacker_pk);
-    let mut tx = Transaction::default();
-    let mut own = Slip::default(); own.public_key = attacker_pk; own.amount = 0;              // from[0]: zero-valued slip of the attacker (needs no existence)
-    tx.from.push(own);
-    tx.from.push(victim_slip.clone());                                                          // from[1]: somebody else's money
-    let mut out = Slip::default(); out.public_key = attacker_pk; out.amount = victim_slip.amount;
-    tx.to.push(out);
-    tx.sign(&attacker_sk);
-    tx.generate(&attacker_pk, 0, 0);
-    let verdict = tx.validate(&bc.utxoset, &bc, true);
-    if verdict {
-        witness(format!("transaction signed only by key {:?}… spends an unspent output of {} nolan owned by a different key {:?}… and Transaction::validate(.., validate_against_utxo = true) returned true",
-            &attacker_pk[..4], victim_slip.amount, &victim_slip.public_key[..4]));
+    let (victim_pk, _) = generate_keys();
+    // a spendable output of every slip type owned by somebody else (placed in a private copy of the ledger), at every
+    // input position behind a zero-valued slip of the attacker
+    for ty in 0u8..10 {
+        let slip_type = SlipType::from_u8(ty).unwrap();
+        if slip_type == SlipType::Bound { continue; }   // Bound slips carry an NFT id, not an owner, in public_key
+        for pos in 1..3usize {
+            let mut utxo = bc.utxoset.clone();
+            let mut victim = Slip::default();
+            victim.public_key = victim_pk; victim.amount = 5_000; victim.block_id = 1; victim.tx_ordinal = 77; victim.slip_index = ty; victim.slip_type = slip_type;
+            victim.generate_utxoset_key();
+            utxo.insert(victim.utxoset_key, true);
+            let mut tx = Transaction::default();
+            for i in 0..=pos {
+                if i == pos { tx.from.push(victim.clone()); } else { let mut own = Slip::default(); own.public_key = attacker_pk; own.amount = 0; own.slip_index = i as u8; tx.from.push(own); }
+            }
+            let mut out = Slip::default(); out.public_key = attacker_pk; out.amount = victim.amount;
+            tx.to.push(out);
+            tx.sign(&attacker_sk);
+            tx.generate(&attacker_pk, 0, 0);
+            if tx.validate(&utxo, &bc, true) {
+                witness(format!("transaction signed only by key {:?}… spends a spendable {:?} output of {} nolan owned by a different key {:?}… (input position {}) and Transaction::validate(.., validate_against_utxo = true) returned true",
+                    &attacker_pk[..4], slip_type, victim.amount, &victim_pk[..4], pos));
+            }
+        }
     }
 }
